@@ -10,7 +10,7 @@ KIND = @@KIND@@          # function|macro|variable|option|generic|ctest|test|sec
 SHAPE = @@SHAPE@@        # kind-specific shape constants (dict)
 DOC = @@DOC@@            # tuple of doc-line shapes (indexes into SHAPES); () = empty doc text
 L = @@L@@                # exact length of every symbolic text piece
-SHAPES = ["{}", "", ":f: {}", "* {}", "   {}", ".. x:: {}", "{}::"]
+SHAPES = ["{}", "", ":f: {}", "* {}", "   {}", ".. x:: {}", "{}::", ":type: {}", ":param {}: x"]
 hc.quiet_logging()
 
 
@@ -21,6 +21,8 @@ def _shape(i, w):
     if i == 3: return "* " + w
     if i == 4: return "   " + w
     if i == 5: return ".. x:: " + w
+    if i == 7: return ":type: " + w          # the doccomment itself states a type / a parameter: nothing generated may be dropped for it
+    if i == 8: return ":param " + w + ": x"
     return w + "::"
 
 
@@ -45,7 +47,7 @@ def _count():
 
 
 NS = _count()
-NB = {"function": 1, "macro": 1, "test": 1, "section": 1, "class": len(SHAPE.get("ctors", [])) + len(SHAPE.get("methods", []))}.get(KIND, 0)
+NB = {"function": 1, "macro": 1, "test": 2, "section": 2, "class": len(SHAPE.get("ctors", [])) + len(SHAPE.get("methods", []))}.get(KIND, 0)
 
 
 NCP = @@NCP@@            # NS * L
@@ -83,6 +85,7 @@ def check(cps: $$CPS$$, b: List[bool]) -> bool:
     elif k in ("test", "section"):
         name = nx()
         real = (dt.TestDocumentation if k == "test" else dt.SectionDocumentation)(name, doc, b[0])
+        real.is_macro = b[1]               # set by the aggregator when the implementation is a macro: the entry stays one directive
         ab = delta.E(k, name, doc, expect_fail=b[0], params=[], is_macro=False)
     elif k == "module":
         name = nx()
